@@ -372,13 +372,20 @@ def _gating(ctx: Ctx, c: Collector) -> None:
             if any(fires(e, v) for e in too_new):
                 pr.append(f"version {'.'.join(map(str, v))} is rejected as too new")
     mism = [e for e in raises if e not in too_new and e.term[0] == "call" and e.term[1] == T.glob(SCENERR)]
+    # the parser of the configured version: the local (whatever it is called) that is bound to something
+    # split at "." -- its operand is the configured version string
     expl = None
+    expl_str = None
     for b in s.of_kind("bind"):
-        if b.term[1] == T.var("explicit_version") and b.term[2] != T.NONE:
-            expl = T.strip(b.term[2])
+        v = T.strip(b.term[2])
+        splits = [x for x in T.subterms((v,)) if x[0] == "call" and x[1][0] == "attr" and x[1][2] == "split" and x[2] == (T.const("."),)]
+        if splits and not T.contains((v,), ver) and b.term[2] != T.NONE:
+            expl = v
+            expl_str = splits[0][1][1]
             # `parse(x) if x is not None else None`: the parser is the branch that is not None
             while expl[0] in ("ifexp", "phi") and T.NONE in (expl[2], expl[3]):
                 expl = T.strip(expl[3] if expl[2] == T.NONE else expl[2])
+            break
     if not mism:
         pr.append("a reported version different from the configured api_version is not rejected")
     else:
@@ -407,7 +414,7 @@ def _gating(ctx: Ctx, c: Collector) -> None:
             while x[0] == "call" and x[1] in (T.glob("list"), T.glob("tuple")) and len(x[2]) == 1:
                 x = x[2][0]
             return T.alpha(x)
-        a = norm(T.replace(expl, {T.var("explicit_version_str"): HOLE}))
+        a = norm(T.replace(expl, {expl_str: HOLE}))
         b = norm(T.replace(parsed[0], {("idx", meta, T.const("api_version")): HOLE}))
         if a != b:
             pr.append(f"the configured version is parsed as {T.show(a)} but the reported one as {T.show(b)}: equal version strings can compare unequal (or different ones equal)")
@@ -479,6 +486,26 @@ def _adapted_meta(ctx: Ctx, c: Collector) -> None:
     rets = [r for r in s.returns]
     ok = bool(rets) and T.contains(rets[0].term, T.glob(ADAPT))
     c.check(ok, "meta", "mosaik.simmanager.start", "start() returns the adapted proxy", "the proxy handed to the scenario is not the result of init_and_get_adapter", fi.loc)
+    # the configured api_version is *read* from the configuration entry: every start from the same entry (a
+    # second instance, a second World built from the same SimConfig) is checked against it
+    pr = []
+    calls = [e for e in s.of_kind("call") if e.term[1] == T.glob(ADAPT)]
+    if not calls:
+        pr.append("init_and_get_adapter is not called")
+    else:
+        ev = unalias(dict(calls[0].term[3]).get("explicit_version_str", calls[0].term[2][3] if len(calls[0].term[2]) > 3 else T.NONE), s, fi)
+        binds = {b.term[1]: T.strip(b.term[2]) for b in s.of_kind("bind")}
+        ev = binds.get(ev, ev) if ev[0] == "var" else ev
+        if ev[0] == "call" and ev[1][0] == "attr" and ev[1][2] in ("pop", "popitem", "setdefault"):
+            pr.append(f"the configured api_version is taken out of the configuration entry ({T.show(ev)[:50]}): only the first start from this entry is checked against it, "
+                      "later starts accept a simulator that announces another version")
+        elif not (T.contains((ev,), T.const("api_version"))):
+            pr.append(f"the configured version passed to init_and_get_adapter is {T.show(ev)[:50]}, not the entry's api_version")
+    for e in s.events:
+        if (e.kind == "call" and e.term[1][0] == "attr" and e.term[1][2] in ("pop", "popitem", "clear", "update", "setdefault") and T.contains((e.term[2],), T.const("api_version"))) \
+                or (e.kind in ("store", "del") and T.contains((e.term[1],), T.const("api_version"))):
+            pr.append(f"the api_version entry of the configuration is modified ({T.show(e.term)[:50]}, line {e.lineno})")
+    c.add("meta", "mosaik.simmanager.start", "the configured api_version is read, not consumed", VIOLATED if pr else DISCHARGED, "; ".join(sorted(set(pr))), fi.loc)
     fi = ctx.func("mosaik.simmanager.SimRunner.__init__")
     s = ctx.summ("mosaik.simmanager.SimRunner.__init__")
     me, conn = T.var(fi.params[0]), T.var(fi.params[2])
